@@ -221,6 +221,12 @@ fn params_for(bits: usize, input: &[bool], all: bool) -> Vec<(usize, Vec<Vec<boo
             out.push((level, vec![on.clone()]));
             out.push((level, vec![sib]));
             out.push((level, both));
+            // every prefix of the level as candidate (up to 64): the on-path candidate sits at the index given
+            // by the input, far from the start of the list for inputs with leading ones
+            if level >= 3 && level <= 5 {
+                let n = 1usize << (level + 1);
+                out.push((level, (0..n as u64).map(|v| bits_of(v, level + 1)).collect()));
+            }
         }
     }
     out
@@ -430,9 +436,93 @@ fn typed_shapes(run: &Run, vdaf: &Pop, bits: usize, input: &[bool], st: &Strateg
     }
 }
 
+/// (f) Generic over the XOF / seed size (the 32-byte TurboSHAKE128 instance and `Poplar1<XofFixedKeyAes128, 16>`):
+/// after honest sharding the DATA element of the value correction word of the queried level is shifted by delta
+/// in the public share, so the on-path candidate carries 1 + delta (authenticator unchanged); the aggregation
+/// parameter lists EVERY prefix of the level (16, 32 or 64 candidates), so the altered candidate sits wherever
+/// the input puts it — also far down the list, where sketch coefficients drawn late from the verification
+/// randomness matter. Both aggregators must not finish with an invalid output.
+fn shifted_value_all_candidates<P, const S: usize>(run: &Run, pname: &str, tape: &Tape)
+where
+    P: Xof<S> + Send + Sync + 'static,
+{
+    use prio::codec::Encode as _;
+    for bits in [5usize, 6] {
+        let vdaf: Poplar1<P, S> = Poplar1::new(bits);
+        for input_v in [(1u64 << bits) - 1, 0b10110 & ((1 << bits) - 1), 0, 17] {
+            let input = bits_of(input_v, bits);
+            let ctx = b"c04 shift".to_vec();
+            let nonce: [u8; 16] = tape.array(80);
+            let vk: [u8; S] = tape.array(81);
+            let (ps, shares) = match pvh::engine::catch(|| vdaf.shard_with_random(&ctx, &IdpfInput::from_bools(&input), &nonce, &tape.bytes(82, 32 + 3 * S))) {
+                Ok(Ok(x)) => x,
+                other => {
+                    run.fail(&format!("f/{pname}/shard"), &format!("Poplar1<{pname}>(bits={bits}): honest sharding failed: {:?}", other.map(|r| r.map(|_| ()).map_err(|e| e.to_string()))), json!({"bits": bits}));
+                    return;
+                }
+            };
+            for level in [3usize, bits - 2, bits - 1] {
+                let leaf = level == bits - 1;
+                let n = 1usize << (level + 1);
+                let ap = Poplar1AggregationParam::try_from_prefixes((0..n as u64).map(|v| IdpfInput::from_bools(&bits_of(v, level + 1))).collect()).unwrap();
+                // layout of the encoded public share: packed control bits, `bits` 16-byte seeds, (bits-1) inner value
+                // correction words of 2 x 8 bytes, one leaf correction word of 2 x 32 bytes
+                let off = bits.div_ceil(4) + 16 * bits + 16 * level.min(bits - 1);
+                for delta in [0u64, 1, 5, u64::MAX] {
+                    let tam = |kind: &str, _round: usize, _agg: usize, bytes: &[u8]| -> Option<Vec<u8>> {
+                        if kind != "public_share" || delta == 0 {
+                            return None;
+                        }
+                        let mut o = bytes.to_vec();
+                        if leaf {
+                            let x = Field255::get_decoded(&o[off..off + 32]).ok()?;
+                            let d = if delta == u64::MAX { -Field255::one() } else { Field255::from(delta) };
+                            o[off..off + 32].copy_from_slice(&(x + d).get_encoded().ok()?);
+                        } else {
+                            let x = Field64::get_decoded(&o[off..off + 8]).ok()?;
+                            let d = if delta == u64::MAX { -Field64::one() } else { Field64::from(delta) };
+                            o[off..off + 8].copy_from_slice(&(x + d).get_encoded().ok()?);
+                        }
+                        Some(o)
+                    };
+                    run.count("evaluations", 1);
+                    run.count("shifted_value_cases", 1);
+                    let res = verify_report::<Poplar1<P, S>, S>(&vdaf, &vk, &ctx, &ap, &nonce, &ps, &shares, &VerifyOpts::tamper(&tam));
+                    let case = || json!({"layer": "f", "xof": pname, "bits": bits, "input": input, "level": level, "candidates": n, "delta": if delta == u64::MAX { "-1".to_string() } else { delta.to_string() }});
+                    match res {
+                        Ok((_, tr)) => {
+                            let sum = out_sum(leaf, &tr.output_shares);
+                            if !valid_output(&sum) {
+                                run.fail(&format!("f/{pname}/invalid_output/level={}", if leaf { "leaf" } else { "inner" }), &format!("Poplar1<{pname}>(bits={bits}): value correction word of level {level} shifted by {} after honest sharding (on-path candidate is #{} of {n}): both aggregators finished with an output that is not zero / one-hot 1", if delta == u64::MAX { "-1".to_string() } else { delta.to_string() }, input_v >> (bits - 1 - level)), case());
+                                return;
+                            }
+                            if delta == 0 {
+                                let want: Vec<Option<u64>> = (0..n as u64).map(|v| Some((v == input_v >> (bits - 1 - level)) as u64)).collect();
+                                if sum != want {
+                                    run.fail(&format!("f/{pname}/honest_output"), &format!("Poplar1<{pname}>(bits={bits}): honest report, all {n} prefixes of level {level}: wrong output"), case());
+                                }
+                            }
+                        }
+                        Err(Failure { stage, msg }) => {
+                            if delta == 0 {
+                                run.fail(&format!("f/{pname}/honest_rejected"), &format!("Poplar1<{pname}>(bits={bits}): honest report rejected with all {n} prefixes of level {level} as candidates at {:?}: {msg}", stage), case());
+                                return;
+                            }
+                            if let Stage::Panic(w) = &stage {
+                                run.fail(&format!("f/{pname}/panic"), &format!("Poplar1<{pname}>(bits={bits}): shifted correction word made {w} panic: {msg}"), case());
+                            }
+                        }
+                    }
+                }
+            }
+        }
+        run.distinct(fnv(format!("f/{pname}/{bits}").as_bytes()));
+    }
+}
+
 fn main() {
     let run = Run::from_args("C04", Level::FaultEnumeration);
-    run.rule("(a) malicious client from public parts: programmed data beta in {0,1,2,-1,3} at one level (others honest), authenticator in {k*beta, k, 0, k+1}, correlated randomness honest for the cheating value or perturbed (A or B at one level), x inputs x every aggregation parameter (bits<=3; on-path/sibling sets beyond) x key tapes; (d) two non-zero candidates adding up to one (control-bit correction flipped at level 0/1, data correction word of level 7 solved from black-box evaluations, correlated randomness for the summed authenticators), placed 1..128 positions apart in the candidate list; (e) for cheating reports, both verifier shares of a round replaced AS OBJECTS by vectors of 0..4 zeros or the genuine ones shortened/extended (shapes the byte decoders never produce); (b) honest reports: every byte of public share, both input shares, both rounds of verifier shares and verifier messages x alteration alphabet; oracle: both finish => outputs sum to zero-vector or one-hot 1; cheating strategies rejected whenever an on-path candidate is queried. distinct = (strategy, bits, input, parameter, tape) and distinct alterations; non-trivial = reached verify_init at both aggregators");
+    run.rule("(a) malicious client from public parts: programmed data beta in {0,1,2,-1,3} at one level (others honest), authenticator in {k*beta, k, 0, k+1}, correlated randomness honest for the cheating value or perturbed (A or B at one level), x inputs x every aggregation parameter (bits<=3; on-path/sibling sets beyond) x key tapes; (d) two non-zero candidates adding up to one (control-bit correction flipped at level 0/1, data correction word of level 7 solved from black-box evaluations, correlated randomness for the summed authenticators), placed 1..128 positions apart in the candidate list; (e) for cheating reports, both verifier shares of a round replaced AS OBJECTS by vectors of 0..4 zeros or the genuine ones shortened/extended (shapes the byte decoders never produce); (f) for Poplar1 over both shipped XOF instantiations (32-byte TurboSHAKE128, 16-byte fixed-key AES): the value correction word of the queried level shifted by 1, 5, -1 after honest sharding with EVERY prefix of the level (16/32/64) as candidate; (b) honest reports: every byte of public share, both input shares, both rounds of verifier shares and verifier messages x alteration alphabet; oracle: both finish => outputs sum to zero-vector or one-hot 1; cheating strategies rejected whenever an on-path candidate is queried. distinct = (strategy, bits, input, parameter, tape) and distinct alterations; non-trivial = reached verify_init at both aggregators");
     run.assume("soundness over the verification key is a fixed alphabet of keys (a cheating report passing by chance has probability <= 2/2^64 per key at inner levels)");
     let q = run.quick();
     let tapes: Vec<(String, Tape)> = tape_alphabet(run.seed, if q { 4 } else { 8 }).into_iter().skip(2).collect();
@@ -440,7 +530,7 @@ fn main() {
     let tally = |s: &str| *by_stage.lock().unwrap().entry(s.to_string()).or_insert(0) += 1;
 
     // ---------------- (a) strategies
-    for bits in [1usize, 2, 3, 8] {
+    for bits in [1usize, 2, 3, 5, 8] {
         if q && bits == 8 {
             // fewer strategies below
         }
@@ -467,7 +557,7 @@ fn main() {
                 }
             }
         }
-        let inputs: Vec<Vec<bool>> = if bits <= 3 { (0..(1u64 << bits)).map(|v| bits_of(v, bits)).collect() } else { vec![bits_of(0xA5, bits), bits_of(0, bits)] };
+        let inputs: Vec<Vec<bool>> = if bits <= 3 { (0..(1u64 << bits)).map(|v| bits_of(v, bits)).collect() } else { vec![bits_of(0xA5 & ((1 << bits) - 1), bits), bits_of(0, bits), bits_of((1 << bits) - 1, bits)] };
         let (ns, ni, nt) = (strategies.len(), inputs.len(), tapes.len());
         let items: Vec<(usize, usize, usize)> = (0..ns).flat_map(|s| (0..ni).flat_map(move |i| (0..nt).map(move |t| (s, i, t)))).collect();
         par::for_each(items.len() as u64, |ix| {
@@ -757,6 +847,9 @@ fn main() {
         run.sample(json!({"layer": "b", "bits": bits, "level": level, "alterations": alts.len(), "finished_with_valid_output": *undetected.lock().unwrap(), "honest_output": honest_sum}));
         eprintln!("[{:.1}s] tamper bits={bits} level={level}: {} alterations", run.elapsed(), alts.len());
     }
+    shifted_value_all_candidates::<XofTurboShake128, 32>(&run, "XofTurboShake128,32", &tapes[0].1);
+    shifted_value_all_candidates::<prio::vdaf::xof::XofFixedKeyAes128, 16>(&run, "XofFixedKeyAes128,16", &tapes[0].1);
+    eprintln!("[{:.1}s] shifted value, all candidates", run.elapsed());
     run.note("outcomes", json!(*by_stage.lock().unwrap()));
     if run.get("transcription_conformance_failures") > 0 {
         run.assume("WARNING: correctly crafted reports were rejected in this run (library derivations differ from the harness transcription or completeness is broken): layer (a) lost power");
